@@ -17,6 +17,11 @@ def fail(msg):
     values are live (formatting realizes them); it is only evaluated in the
     concrete replay interpreter.
     """
+    if os.environ.get('VERIF_DEBUG_FAIL') == '1' and not CONCRETE:
+        # debugging aid: tell which check tripped under symbolic execution (static text only)
+        import sys
+        f = sys._getframe(1)
+        raise AssertionError('fail() called at %s:%d' % (f.f_code.co_filename.rsplit('/', 1)[-1], f.f_lineno))
     if CONCRETE:
         try:
             NOTES.append(msg() if callable(msg) else msg)
